@@ -151,6 +151,8 @@ SwapEv(ev, t) ==
   IN SimFormula(ev) \o ReverseSimX(ev) \o
      \* a cw20 offer named in the direct swap message pays nothing in: it must be refused (an accepted one is judged as a swap)
      (IF ev.args.wrong_path THEN << <<"C02.swap.only-against-tokens-paid-in", ev.res # "ok">> >> ELSE <<>>) \o
+     \* ... and a native offer that attaches something else than the amount it declares (nothing, less, more, the other asset)
+     (IF ev.args.funds # "exact" THEN << <<"C01.swap.native-offer-paid-in-as-declared", ev.res # "ok">> >> ELSE <<>>) \o
      IF ev.res = "ok"
      THEN LET o == ev.out  g == Gross(o) IN
           SwapChecks(st, dir, offer, o)
@@ -174,7 +176,7 @@ SwapEv(ev, t) ==
           \o ObsChecks(SwapNext(st, u, dir, offer, o, ev.args.to), ev.obs)
      ELSE Unchanged(ev, t)
           \o << <<"C15.swap.inside-rejected",
-                   ~( /\ ~ev.args.wrong_path /\ sim.res = "ok" /\ live /\ st.tog.s /\ Zero \prec offer /\ offer \preceq st.w[u][dir]
+                   ~( /\ ~ev.args.wrong_path /\ ev.args.funds = "exact" /\ sim.res = "ok" /\ live /\ st.tog.s /\ Zero \prec offer /\ offer \preceq st.w[u][dir]
                       /\ SpreadInside(offer, Gross(sim), sim.spread, ms, bp) )>> >>
 
 CollectEv(ev, t) ==
